@@ -104,6 +104,7 @@ let handle line =
   | "archived" :: [f] -> do_op (Archived (optflag f))
   | "setarch" :: ws -> do_op (SetArchive (parse_arch ws))
   | "archset" :: [k; v] -> do_op (ArchSet (zi k, zi v))
+  | "memclear" :: _ -> do_op MemClear
   (* stand-alone klepto.archives.cache *)
   | "c.init" :: ws -> cst := { mem = []; arch = parse_arch ws; swp = ANull }; print_string "ok\n"
   | "c.state" :: _ ->
